@@ -170,7 +170,7 @@ def run_model(case):
     c = Ctx(case["key"])
     warnings.simplefilter("ignore")
     um = e["make"]()
-    c.floor = 1e-4 * max(1.0, e["scale"])
+    c.floor = 1e-4 * (max(1.0, e["scale"]) if e["scale"] >= 1e-3 else e["scale"])  # (entries in a small stress unit: floor in that unit)
     lat = lattice(e["lattice"], case["seed"], case["tier"], e["name"])
     labels = [l for l, _ in lat]
     F = stack(lat)
